@@ -752,7 +752,6 @@ Proof.
   constructor; cbn; try reflexivity; try tauto.
   - constructor.
   - intros o os H. discriminate.
-  - intros o [].
   - intros _. destruct K; [exact I|reflexivity|split; reflexivity].
 Qed.
 
